@@ -464,6 +464,22 @@ class Reference:
                 else:
                     planes.extend(fac)
                 continue
+            if not s.tr and s.mn in ('RHP', 'HEX') and len(s.params) == 15:
+                # facets of a hexagonal prism: .1/.2 across +r/-r, .3/.4 +s/-s, .5/.6 +t/-t, .7 top, .8 base
+                p = [n.N(v) for v in s.params]
+                v_, h_ = p[0:3], p[3:6]
+                fac = []
+                for w in (p[6:9], p[9:12], p[12:15]):
+                    fac.append((list(w), n.dot(w, n.vadd(v_, w))))
+                    mw = [n.neg(x) for x in w]
+                    fac.append((mw, n.dot(mw, n.vsub(v_, w))))
+                fac.append((list(h_), n.dot(h_, n.vadd(v_, h_))))
+                fac.append(([n.neg(x) for x in h_], n.neg(n.dot(h_, v_))))
+                if len(leaf) > 2 and leaf[2]:
+                    planes.append(fac[leaf[2] - 1])
+                else:
+                    planes.extend(fac)
+                continue
             if s.tr or s.mn not in ('PX', 'PY', 'PZ', 'P'):
                 raise ref.RefError('lattice reference: planes without TR only')
             p = [n.N(v) for v in s.params]
@@ -670,7 +686,8 @@ def to_json(deck, env):
         'lattice_opt': deck.lattice_opt,
         'dot_spelling': bool(getattr(deck, 'dot_spelling', False)),
         'c10': [{'mat': i['mat'], 'entries': [[z, _num_json(f, env), sn] for z, f, sn in i['entries']], 'mixed': i['mixed'],
-                 'kwpos': i['kwpos'], 'rho': _num_json(i['rho'], env), 'rho_neg': i['rho_neg']} for i in getattr(deck, 'c10', [])],
+                 'kwpos': i['kwpos'], 'rho': _num_json(i['rho'], env), 'rho_neg': i['rho_neg'],
+                 'uses': [[_num_json(r, env), ng, cid] for r, ng, cid in i.get('uses', [])]} for i in getattr(deck, 'c10', [])],
     }
 
 
@@ -727,7 +744,8 @@ def from_json(j):
     d.dot_spelling = bool(j.get('dot_spelling', False))
     if j.get('c10'):
         d.c10 = [{'mat': i['mat'], 'entries': [(z, _fr(f), sn) for z, f, sn in i['entries']], 'mixed': i['mixed'], 'kwpos': i['kwpos'],
-                  'rho': _fr(i['rho']), 'rho_neg': i['rho_neg']} for i in j['c10']]
+                  'rho': _fr(i['rho']), 'rho_neg': i['rho_neg'],
+                  'uses': [(_fr(r), ng, cid) for r, ng, cid in i.get('uses', [])]} for i in j['c10']]
     return d
 
 
